@@ -241,6 +241,7 @@ class PathSummary:
     def __init__(self, name, pr, result, text, parser, window, vn):
         self.name = name
         self.pc = pr.pc
+        self.branch_pc = getattr(pr, 'branch_pc', pr.pc)
         self.outcome = pr.outcome
         self.exc = pr.exc
         self.result = result
